@@ -1496,19 +1496,30 @@ class Config:  # pylint: disable=too-many-instance-attributes
             formatter = format_factory()
             try:
                 tree = field.include(self, formatter, filename, tree)
-            except ValidationError:
-                raise
+            except ValidationError as err:
+                # named relative to the scope being processed, completed by the enclosing scopes
+                raise ValidationError(self, field, err.exc, ref_path=key) from err  # type: ignore
             except Exception as err:
-                raise ValidationError(
-                    self, field, err, ref_path=field._ref_path  # type: ignore
-                ) from err
+                raise ValidationError(self, field, err, ref_path=key) from err  # type: ignore
 
         for key, sub_schema in sub_schemas:
             # anything but a map is left for load_tree() to reject, with the field's path
             if tree.get(key) and isinstance(tree[key], dict):
-                tree[key] = self._process_includes(
-                    sub_schema, tree[key], format_factory
-                )
+                try:
+                    tree[key] = self._process_includes(
+                        sub_schema, tree[key], format_factory
+                    )
+                except ValidationError as err:
+                    if isinstance(err.field, IncludeFieldMixin) and err._ref_path:
+                        # the schema of a config type does not know where it is used: build the
+                        # path of the include field from the scopes on the way out
+                        raise ValidationError(
+                            self,
+                            err.field,
+                            err.exc,
+                            ref_path="%s.%s" % (key, err._ref_path),
+                        ) from err
+                    raise
 
         return tree
 
